@@ -50,6 +50,9 @@ def step' (line : String) : String :=
       let sh (x : Bool) : String := if x then "1" else "0"
       ",".intercalate [sh (touches t), sh (cbreakAlreadySet r.during), sh (r.after == t.attrs), sh r.raised]
     | _ => "bad-tty"
+  | ["R", chunks] =>
+    -- byte-mode input pipeline: incremental UTF-8 decode of the reads (never flushed), then UTF-8 encode of the text
+    hex (utf8enc.encodeWhole ((utf8.decodeUnflushed ((splitNE chunks ",").map decChunk)).map Char.toNat))
   | ["E", enc, mode, pieces] =>
     -- pieces: `;`-separated pieces of `.`-separated decimal code points; mode i = one encoder, p = per piece
     let ps : List (List Nat) := (splitNE pieces ";").map fun p => (splitNE p ".").filterMap String.toNat?
